@@ -15,6 +15,7 @@ import (
 	"sort"
 	"strings"
 
+	"github.com/hashicorp/hcl/v2"
 	"github.com/pulumi/esc"
 	"github.com/pulumi/esc/cmd/esc/cli"
 	"github.com/pulumi/esc/eval"
@@ -328,6 +329,13 @@ func evRun(c map[string]any, secrets map[string]string) (map[string]any, *esc.En
 		out, diags = eval.EvalEnvironment(context.Background(), name, env, dec, w, w, execCtx)
 	}
 	res["errors"] = hasErrors(diags)
+	nerr := 0
+	for _, d := range diags {
+		if d.Severity == hcl.DiagError {
+			nerr++
+		}
+	}
+	res["nerr"] = nerr
 	res["log"] = w.log
 	if out == nil {
 		res["value"] = nil
